@@ -447,6 +447,19 @@ func debugOps(h *Hist, o *TxnObs) {
 	for _, op := range o.Ops {
 		if strings.Contains(op.Key, k) {
 			fmt.Printf("DBGOP %s i=%d %s %s key=%s type=%s len=%d\n", h.ID, o.Idx, o.Call.Name, op.Kind, op.Key, op.Type, len(op.Bytes))
+			if os.Getenv("VERIF_DEBUG_DUMP") != "" && op.Kind != "insert" {
+				if n := h.NodeByKey(o.Pre, op.Key); n != nil {
+					fmt.Printf("DBGDUMP %s i=%d key=%s %s\n", h.ID, o.Idx, op.Key, dumpVal(n.Val))
+				}
+			}
 		}
 	}
+}
+
+func dumpVal(v interface{}) string {
+	b, err := json.Marshal(v)
+	if err != nil {
+		return fmt.Sprintf("%+v", v)
+	}
+	return string(b)
 }
